@@ -68,6 +68,7 @@ def static_report(table, nproc=6):
                'Definition one (n : string) := filter (fun fd => String.eqb (fn_name fd) n) eon_program.\n')
         for n in names[i::nproc]:
             src += 'Eval vm_compute in (report eon_program (one "%s")).\n' % n
+            src += 'Eval vm_compute in (dead_report eon_program (one "%s")).\n' % n
         open(os.path.join(GEN, 'EffectsReport%d.v' % i), 'w').write(src)
         procs.append(subprocess.Popen('timeout 900 coqc -Q . EoNV Gen/EffectsReport%d.v' % i, shell=True, cwd=C.COQ,
                                       stdout=subprocess.PIPE, stderr=subprocess.STDOUT, text=True))
@@ -79,6 +80,12 @@ def static_report(table, nproc=6):
         params = None if mp == 'None' else re.findall(r'"(\w+)"', plist or '')
         wl = [(int(a), b) for a, b in re.findall(r'\(\s*(\d+), "(\w+)"\)', lines)]
         rep[n] = {'public': pub == 'true', 'mutated': params, 'writes': sorted(set(wl))}
+    # model diagnostics: uses of a variable that is unbound in every execution of the model
+    # (the semantics is stuck there, so the soundness theorem does not cover the code after it)
+    for m in re.finditer(r'= \[\("(\w+)", (Some \[(.*?)\]|None)\)\] : list \(string \* option', txt):
+        n, dd, body = m.groups()
+        if n in rep:
+            rep[n]['dead_uses'] = None if dd == 'None' else sorted(set((int(a), int(b)) for a, b in re.findall(r'\(\s*(\d+), (\d+)\)', body or '')))
     missing = [n for n in names if n not in rep]
     if missing:
         return None, 'no verdict for %s: %s' % (missing[:5], txt[-1500:])
@@ -461,6 +468,8 @@ def run(run, tier):
             'static_s': round(t_static, 1), 'dynamic_s': round(time.time() - t1, 1)}
     extra = {'distribution': dist,
              'static_verdicts': {n: static[n] for n in static if static[n]['mutated'] != []} if static else None,
+             'model_dead_uses': ({n: static[n].get('dead_uses', 'not-computed') for n in static if static[n].get('dead_uses', 'not-computed') != []}
+                                 if static else None),
              'functions_translated': len(table['functions']) if table else 0,
              'statements': sum(f['statements'] for f in table['functions']) if table else 0,
              'translator_notes': table['notes'] if table else [msg],
